@@ -70,7 +70,7 @@ def _spec(d: D, ids: list[int], depth: int, tier: str) -> dict:
         s["sleep"] = d.weighted([(0, 60), (1, 25), (2, 15)])
     if route in ("ctx", "module"):
         s["pass_exc"] = d.bool()
-    shape = d.weighted([("function", 70), ("object", 18), ("partial", 12)])
+    shape = d.weighted([("function", 64), ("object", 14), ("partial", 12), ("falsy_object", 10)])
     if shape != "function":
         s["shape"] = shape  # a callable object (no __qualname__) / a functools.partial
     if route == "resource" and d.pct(40):
@@ -273,17 +273,17 @@ class Interp:
         shape = spec.get("shape")
         if shape == "partial":
             return functools.partial(cb)
-        if shape == "object":
+        if shape in ("object", "falsy_object"):
+            # "falsy_object": a callable whose truth value is False (an empty callable collection)
+            extra = {"__len__": lambda self: 0} if shape == "falsy_object" else {}
             if inspect.iscoroutinefunction(cb):
-                class AsyncCallable:
-                    async def __call__(self, *a: Any) -> Any:
-                        return await cb(*a)
-                return AsyncCallable()
+                async def acall(self: Any, *a: Any) -> Any:
+                    return await cb(*a)
+                return type("AsyncCallable", (), {"__call__": acall, **extra})()
 
-            class Callable_:
-                def __call__(self, *a: Any) -> Any:
-                    return cb(*a)
-            return Callable_()
+            def call(self: Any, *a: Any) -> Any:
+                return cb(*a)
+            return type("Callable_", (), {"__call__": call, **extra})()
         return cb
 
     def register(self, spec: dict, during_teardown: bool = False) -> Any:
